@@ -67,6 +67,11 @@ namespace cnl {
             auto lefts{0};
             auto rights{0};
             for (;;) {
+#if defined(JOHNMCFARLANE_CNL_VERIF)
+                if (!std::is_constant_evaluated() && _impl::verif::tick_hook) {
+                    _impl::verif::tick_hook();
+                }
+#endif
                 auto const mid{fraction<uint_t>(
                         static_cast<uint_t>(left.numerator + right.numerator),
                         static_cast<uint_t>(left.denominator + right.denominator))};
